@@ -8,6 +8,7 @@ covered by the tie only (xz tool, Wuffs std/lzma + std/xz on every generated pay
 -/
 import WuffsVerif.Proof.LzmaXz
 import WuffsVerif.Proof.LzmaBound2
+import WuffsVerif.Proof.LzmaFuel
 
 namespace WuffsVerif.Props.C17
 open WuffsVerif.Lzma
@@ -229,6 +230,14 @@ theorem decodeRaw_total_bounded (dst : Array UInt8) (src : List UInt8) (size : N
 theorem decodeBit_potential (p : Nat) (d : RangeDecoder) (b p' : Nat) (d' : RangeDecoder) (hp : ProbOK p)
     (hw : WOK d) (hd : decodeBit p d = some (b, p', d')) : WOK d' ∧ Psi d' + 1 ≤ Psi d :=
   decodeBit_pot p d b p' d' hp hw hd
+
+/-- the model's only deviation from the Go control flow is the `fuel` of the chunk loop (`for { … }` in
+    Go); every round consumes at least one byte, so any fuel above the input length — `decodeXz` passes
+    `len(src) + 1` — gives the same result: fuel exhaustion is unreachable. -/
+theorem xz_chunk_loop_fuel_irrelevant (f1 f2 : Nat) (dst : Array UInt8) (src : List UInt8)
+    (h1 : src.length < f1) (h2 : src.length < f2) :
+    decodeXzChunks f1 dst src = decodeXzChunks f2 dst src :=
+  decodeXzChunks_fuel f1 f2 dst src h1 h2
 
 /-- non-vacuity: the hypotheses hold for the decoder's initial state on any input -/
 example (rest : List UInt8) (bits : Nat) : WOK ⟨rest, bits, 0xFFFFFFFF⟩ ∧ ProbOK probHalf :=
